@@ -1044,6 +1044,9 @@ func TestServerProvenance(t *testing.T) {
 			}
 			labels = append(labels, fmt.Sprintf("instances:%d", len(w.srv)))
 			labels = append(labels, w.notes...)
+			if w.heldSecret > 0 {
+				labels = append(labels, "no-verdict:state-made-by-the-harness-under-the-accepting-instances-own-secret")
+			}
 			rl, _ := w.reuseLabels()
 			labels = append(labels, rl...)
 		})
